@@ -255,7 +255,13 @@ func (f *folder) table(g *ssa.Global) (fval, bool) {
 				return fval{}, false
 			}
 			k, ok1 := mk(kv.Key, t.Key())
-			v, ok2 := mk(kv.Value, t.Elem())
+			var v fval
+			var ok2 bool
+			if est, isStruct := t.Elem().Underlying().(*types.Struct); isStruct {
+				v, ok2 = mkStruct(kv.Value, est)
+			} else {
+				v, ok2 = mk(kv.Value, t.Elem())
+			}
 			if !ok1 || !ok2 || k.kind != 'i' {
 				return fval{}, false
 			}
@@ -265,6 +271,9 @@ func (f *folder) table(g *ssa.Global) (fval, bool) {
 		z, _ := func() (fval, bool) {
 			if bits, uns, ok := intInfo(t.Elem()); ok {
 				return fval{kind: 'i', bits: bits, u: uns}, true
+			}
+			if _, isStruct := t.Elem().Underlying().(*types.Struct); isStruct {
+				return zeroFval(t.Elem(), 0), true
 			}
 			return fval{kind: 'b'}, true
 		}()
